@@ -57,7 +57,7 @@ V2('01.2', 'C01', 'R01a', 'fire', [
      '        self._lexer = ply_lexer\n        self._own = ply_lexer.clone()\n'),
     (FAC, 'lexer=self.lexer.clone()', 'lexer=self._own')],
    'clone hoisted into __init__: still one cursor per engine')
-V2('01.2t', 'C01', '', 'silent', [
+V2('01.2c', 'C01', 'R01a', 'fire', [
     (FAC, 'import collections\n', 'import collections\nimport threading\n'),
     (FAC, '        self._lexer = ply_lexer\n',
      '        self._lexer = ply_lexer\n        self._lock = threading.Lock()\n'),
@@ -66,7 +66,26 @@ V2('01.2t', 'C01', '', 'silent', [
      '''        with self._lock:
             return expressions.Statement(
                 self.parser.parse(expression, lexer=self.lexer), self)''')],
-   'twin: shared lexer but serialised by an engine lock')
+   'per-instance lock, but copy() builds another engine around the same '
+   'lexer with its own lock (this used to be a "twin": seed C01-5 showed '
+   'it is not)')
+V2('01.2t', 'C01', '', 'silent', [
+    (FAC, 'import collections\n', 'import collections\nimport threading\n'),
+    (FAC, '    def __init__(self, ply_lexer, ply_parser, options, factory):\n',
+     '    def __init__(self, ply_lexer, ply_parser, options, factory,\n'
+     '                 lock=None):\n'),
+    (FAC, '        self._lexer = ply_lexer\n',
+     '        self._lexer = ply_lexer\n'
+     '        self._lock = lock or threading.Lock()\n'),
+    (FAC, '''        return expressions.Statement(
+            self.parser.parse(expression, lexer=self.lexer.clone()), self)''',
+     '''        with self._lock:
+            return expressions.Statement(
+                self.parser.parse(expression, lexer=self.lexer), self)'''),
+    (FAC, '        return YaqlEngine(self._lexer, self._parser, opt, self._factory)',
+     '        return YaqlEngine(self._lexer, self._parser, opt, self._factory,\n'
+     '                          self._lock)')],
+   'twin: shared lexer serialised by ONE lock that copies share')
 V('01.3', 'C01', 'R01b', 'fire', LEX,
   '''        if t.value in self._operators_table:
             t.type = self._operators_table[t.value][2]''',
